@@ -21,8 +21,14 @@
 //!        tokens (harness observations are events r_* of thread 0), then `| HANG` if a woken link
 //!        never reported back.
 //!
-//!   wcq SLOTS LIMIT MODULUS WORKDELAY SEED ; in in .. ; in in ..     one group of inputs per
-//!        thread; each thread calls do_work for its inputs in turn.  The core batches while
+//!   wcq SLOTS LIMIT MODULUS WORKDELAY SEED [EXTRA SHORT WATCHDOG_MS] ; in in .. ; in in .. [; G ..]
+//!        one group of inputs per thread; each thread calls do_work for its inputs in turn.
+//!        EXTRA: work() yields that many junk items (999999, batch, k) AFTER the right outputs
+//!        (an over-producing core, legal for the trait).  SHORT (outside the core's contract,
+//!        informational): 1 = one output too few when taken >= 2, 2 = no outputs at all.
+//!        WATCHDOG_MS: exact time to wait for the threads (default: 64 s).
+//!        `G TID WHAT NTH RELTID RELWHAT RELN`: thread TID stops at its NTH event WHAT until
+//!        thread RELTID has recorded RELN events RELWHAT (a placed schedule, hook verif::add_gate).  The core batches while
 //!        acc.len() < LIMIT and (MODULUS == 0 or input % MODULUS != 0); work() returns
 //!        (input, batch number, position) per input.  Output: `R tid:in>in.batch.pos,.. ;..` then
 //!        `| B first:in,in ;..` (the core's log) then `| E tid:what:a:b:c ..` (trace); HANG if the
@@ -361,6 +367,8 @@ struct HxCore {
     limit: usize,
     modulus: u64,
     delay_us: u64,
+    extra: usize,
+    short: u64,
     batches: Vec<Vec<u64>>,
 }
 
@@ -384,11 +392,16 @@ impl WorkCoalescingCore<u64, (u64, u64, u64)> for HxCore {
         if self.delay_us > 0 {
             std::thread::sleep(Duration::from_micros(self.delay_us));
         }
-        acc.iter()
-            .enumerate()
-            .map(|(j, x)| (*x, b, j as u64))
-            .collect::<Vec<_>>()
-            .into_iter()
+        let mut outs: Vec<(u64, u64, u64)> = acc.iter().enumerate().map(|(j, x)| (*x, b, j as u64)).collect();
+        if self.short == 1 && taken >= 2 {
+            outs.pop();
+        } else if self.short == 2 {
+            outs.clear();
+        }
+        for k in 0..self.extra {
+            outs.push((999999, b, k as u64));
+        }
+        outs.into_iter()
     }
 }
 
@@ -396,11 +409,22 @@ fn wcq_case(rest: &str, outs: &Mutex<Vec<String>>) {
     let mut parts = rest.split(';');
     let head: Vec<u64> = parts.next().unwrap().split_whitespace().map(|x| x.parse().unwrap()).collect();
     let (slots, limit, modulus, delay, seed) = (head[0] as usize, head[1] as usize, head[2], head[3], head[4]);
-    let progs: Vec<Vec<u64>> = parts
-        .map(|p| p.split_whitespace().map(|x| x.parse().unwrap()).collect())
-        .collect();
+    let extra = head.get(5).copied().unwrap_or(0) as usize;
+    let short = head.get(6).copied().unwrap_or(0);
+    let watchdog = head.get(7).copied().unwrap_or(0);
+    let mut progs: Vec<Vec<u64>> = Vec::new();
+    let mut gated = false;
+    for p in parts {
+        let t: Vec<&str> = p.split_whitespace().collect();
+        if t.first() == Some(&"G") {
+            verif::add_gate(t[1].parse().unwrap(), t[2], t[3].parse().unwrap(), t[4].parse().unwrap(), t[5], t[6].parse().unwrap());
+            gated = true;
+        } else {
+            progs.push(t.iter().map(|x| x.parse().unwrap()).collect());
+        }
+    }
     verif::set_slots(slots);
-    let q = Arc::new(WorkCoalescingQueue::new(HxCore { limit, modulus, delay_us: delay, batches: Vec::new() }));
+    let q = Arc::new(WorkCoalescingQueue::new(HxCore { limit, modulus, delay_us: delay, extra, short, batches: Vec::new() }));
     verif::set_slots(0);
     verif::start();
     let nthreads = progs.len();
@@ -418,7 +442,7 @@ fn wcq_case(rest: &str, outs: &Mutex<Vec<String>>) {
             let mut rng = hx::Rng(seed.wrapping_mul(0x9E3779B97F4A7C15) ^ (tid as u64 + 1));
             barrier.wait();
             for input in prog {
-                match rng.below(4) {
+                match if gated { 0 } else { rng.below(4) } {
                     0 => {}
                     1 => std::thread::yield_now(),
                     2 => {
@@ -428,14 +452,25 @@ fn wcq_case(rest: &str, outs: &Mutex<Vec<String>>) {
                     }
                     _ => std::thread::sleep(Duration::from_micros(rng.below(120))),
                 }
+                verif::event("call", input, 0, 0);
                 let r = catch_unwind(AssertUnwindSafe(|| q.do_work(input)));
                 results.lock().unwrap()[tid].push((input, r.ok()));
             }
             done.fetch_add(1, std::sync::atomic::Ordering::SeqCst);
         }));
     }
-    let finished = wait_until(|| done.load(std::sync::atomic::Ordering::SeqCst) == nthreads, 8000);
+    let all_done = || done.load(std::sync::atomic::Ordering::SeqCst) == nthreads;
+    let finished = if watchdog > 0 {
+        let t0 = Instant::now();
+        while !all_done() && t0.elapsed() < Duration::from_millis(watchdog) {
+            std::thread::sleep(Duration::from_micros(100));
+        }
+        all_done()
+    } else {
+        wait_until(all_done, 8000)
+    };
     let tr = verif::take();
+    let (gates_fired, gate_timeouts) = verif::clear_gates();
     let res = results.lock().unwrap().clone();
     let mut r = String::from("R");
     for (tid, rs) in res.iter().enumerate() {
@@ -454,13 +489,23 @@ fn wcq_case(rest: &str, outs: &Mutex<Vec<String>>) {
         for h in handles {
             let _ = h.join();
         }
-        let core = q.get_core();
+        let core = match catch_unwind(AssertUnwindSafe(|| q.get_core())) {
+            Ok(c) => c,
+            Err(_) => {
+                outs.lock().unwrap().push("| POISONED".to_string());
+                outs.lock().unwrap().push(format!("| E {}", dump_trace(&tr)));
+                return;
+            }
+        };
         let b: Vec<String> = core
             .batches
             .iter()
             .map(|b| b.iter().map(|x| x.to_string()).collect::<Vec<_>>().join(","))
             .collect();
         outs.lock().unwrap().push(format!("| B {}", b.join(";")));
+        if gated {
+            outs.lock().unwrap().push(format!("| G {} {}", gates_fired, gate_timeouts));
+        }
     } else {
         outs.lock().unwrap().push("| HANG".to_string());
     }
